@@ -133,7 +133,7 @@ def _main(pid, args, seed):
     # ---- replay tier ----------------------------------------------------------------------
     regress = sorted(glob.glob(os.path.join(VERIF_DIR, "replays", pid, "*.json")))
     findings = known.open_findings(pid)
-    cases = [load_case_file(p) for p in regress] + [f["example"] for f in findings]
+    cases = [load_case_file(p) for p in regress] + [f.get("examples", {}).get(pid, f["example"]) for f in findings]
     replayed = 0
     stale = []
     if cases:
